@@ -186,7 +186,10 @@ CLAIMS = {
         "C04_distinct_objects, C04_race_waits, C04_scoped. A suspended lookup given up by its caller (`cancelGet`: the lookup "
         "running the factory - the generation is abandoned, the waiting lookups look again - or one that only waited): "
         "C04_cancel_no_lost_waiter (every waiter has returned or is again runner/waiter of a generation in flight), _removes, "
-        "_answer, _waiter_only, _keeps_existing, _fac, _log_sound(_gated), _scoped. " + KERNEL_NOTE,
+        "_answer, _waiter_only, _keeps_existing, _fac, _log_sound(_gated), _scoped. Lookups awaited by teardown callbacks "
+        "(Props/C04_body.lean): C04_body_get_existing (what the context holds is returned, no factory is called), "
+        "C04_body_get_then_same (a first generation made there is stored; a second lookup of either kind returns the same "
+        "object). " + KERNEL_NOTE,
         "Written for the behaviour after the fix: commits for D1, D2, D3. Lookups still suspended when their context is closed "
         "are outside the statement and only compared with the model.",
         "8/C04",
@@ -203,7 +206,9 @@ CLAIMS = {
     "C13": (
         "The state x operation matrix as theorems: C13_guard_add / _get_nowait / _get / _teardown_callback / _add_factory, "
         "C13_closing_allowed, C13_enter_once, C13_enter_opens, C13_closed_flag, C13_state_during_teardown, "
-        "C13_closed_after_exit, C13_children_reported, C13_child_registered. The correspondence enumerates the whole matrix "
+        "C13_closed_after_exit, C13_children_reported, C13_child_registered; for lookups *awaited* by teardown callbacks "
+        "(Props/C13_body.lean) C13_closing_get_allowed, C13_body_get_is_get, C13_body_get_blocks_iff (it is get_resource "
+        "where that does not suspend). The correspondence enumerates the whole matrix "
         "on both back-ends in both tiers. " + KERNEL_NOTE,
         "The roll-back to inactive after a failing __aenter__ has no trigger from the public API: not exercised.",
         "8/C13",
